@@ -56,8 +56,9 @@ const MAX_SENDERS: usize = 3;
 
 fn check_inner(c: &Case) -> CaseResult {
     let (tx, rx) = mpsc::channel::<u32>();
-    let mut senders = vec![tx];
-    let mut rx = Some(rx);
+    // kept in `Sut`: leaked instead of dropped while a panic of the channel unwinds
+    let mut senders = vec![vcore::Sut::new(tx)];
+    let mut rx = Some(vcore::Sut::new(rx));
     // model
     let mut queue: VecDeque<u32> = VecDeque::new();
     let mut closed = false;
@@ -95,7 +96,7 @@ fn check_inner(c: &Case) -> CaseResult {
                 } else {
                     let (_cw, w) = count_waker();
                     let mut cx = Context::from_waker(&w);
-                    let mut p = Pin::new(&mut senders[i]);
+                    let mut p = Pin::new(&mut *senders[i]);
                     vensure!(matches!(p.as_mut().poll_ready(&mut cx), Poll::Ready(Ok(()))), "C16/sink", "step {}: Sink::poll_ready not Ready(Ok)", step);
                     let r = p.as_mut().start_send(v).map_err(|e| e.into_inner());
                     vensure!(matches!(p.as_mut().poll_flush(&mut cx), Poll::Ready(Ok(()))), "C16/sink", "step {}: Sink::poll_flush not Ready(Ok)", step);
@@ -120,8 +121,8 @@ fn check_inner(c: &Case) -> CaseResult {
                     continue;
                 }
                 let i = vcore::pick(s, senders.len());
-                let n = senders[i].clone();
-                senders.push(n);
+                let n = (*senders[i]).clone();
+                senders.push(vcore::Sut::new(n));
             }
             Op::DropSender { s } => {
                 if senders.is_empty() {
@@ -146,6 +147,7 @@ fn check_inner(c: &Case) -> CaseResult {
             }
             Op::Poll | Op::PollRecv | Op::PollSame { .. } => {
                 let Some(r) = rx.as_mut() else { continue };
+                let r: &mut mpsc::Receiver<u32> = &mut *r;
                 let cw = match op {
                     Op::PollSame { w } => {
                         let (a, wk) = &reusable[(*w % 2) as usize];
@@ -198,7 +200,7 @@ fn check_inner(c: &Case) -> CaseResult {
                     continue;
                 }
                 if let Some(r) = rx.as_ref() {
-                    senders.push(r.sender());
+                    senders.push(vcore::Sut::new(r.sender()));
                 }
             }
             Op::DropReceiver => {
@@ -211,6 +213,7 @@ fn check_inner(c: &Case) -> CaseResult {
     }
     // final drain: everything still buffered must come out in order, exactly once
     if let Some(r) = rx.as_mut() {
+        let r: &mut mpsc::Receiver<u32> = &mut *r;
         let cw = count_waker();
         let mut cx = Context::from_waker(&cw.1);
         while let Some(v) = queue.pop_front() {
